@@ -57,7 +57,6 @@ pub fn expand_type_support(input: &DeriveInput) -> Result<TokenStream> {
 
             let mut next_auto_id = 0;
             for (member_index, member) in xtypes_struct.fields.iter().enumerate() {
-                let index = member_index as u32;
                 let struct_member_attributes = get_structure_member_attributes(member)?;
 
                 let member_name = member
@@ -177,14 +176,18 @@ pub fn expand_type_support(input: &DeriveInput) -> Result<TokenStream> {
                     quote! { <#member_type as dust_dds::xtypes::type_support::Type>::TYPE}
                 };
 
-                member_list.push(quote! {
+                // A non-serialized member is not part of the description: it is neither stored in the
+                // dynamic data nor written to the wire, so describing it makes every sample unserializable
+                let described_index = member_list.len() as u32;
+                if !struct_member_attributes.non_serialized {
+                    member_list.push(quote! {
                      dust_dds::xtypes::dynamic_type::DynamicTypeMember {
                         descriptor: dust_dds::xtypes::dynamic_type::MemberDescriptor {
                             name: #member_name,
                             id: #member_id,
                             r#type: #member_dynamic_type,
                             default_value: None,
-                            index: #index as u32,
+                            index: #described_index,
                             try_construct_kind: #try_construct,
                             label: &[],
                             is_key: #is_key,
@@ -195,7 +198,8 @@ pub fn expand_type_support(input: &DeriveInput) -> Result<TokenStream> {
                             is_external: #is_external,
                         }
                     }
-                });
+                    });
+                }
 
                 let member_type = &member.ty;
                 let member_default_value = default_value
